@@ -120,9 +120,11 @@ Proof. intros Hk (I1 & I2 & I3 & I4 & I5) Hc Hu.
 (* ---- closed is for good; the close handler fires once in the whole history ---- *)
 Lemma step_closed_mono c s o : inv s -> closed s = true -> closed (fst (step c s o)) = true.
 Proof. intros I Hc.
+  destruct (chan_op o) eqn:Ech.
+  { destruct o; try discriminate. cbn [step]. apply do_work_closed_mono. exact Hc. }
   assert (H : exists k r, o <> DropHandle k r).
   { destruct o; try (exists KPub, 0; congruence). exists k, (r + 1). intros H. inversion H. lia. }
-  destruct H as (k & r & Hne). destruct (step_stable c s o k r I Hne) as [_ B]. auto. Qed.
+  destruct H as (k & r & Hne). destruct (step_stable c s o k r I Hne Ech) as [_ B]. auto. Qed.
 
 Lemma closed_api_refused c s : closed s = true ->
   (forall k a1 a2 a3, do_add k a1 a2 a3 s = (s, (Err Closed, [], [])) \/ do_add k a1 a2 a3 s = (s, (Err DriverInactive, [], []))) /\
@@ -152,12 +154,35 @@ Proof. unfold delta. intros ->. destruct (closed s); reflexivity. Qed.
 Lemma close_all_delta' s s1 cbs hang : inv s -> close_all s = (s1, cbs, hang) -> n_close cbs = delta s s1.
 Proof. intros I H. pose proof (close_all_delta s I) as X. rewrite H in X. exact X. Qed.
 
+(* callbacks of a channel endpoint error: the error handler and unavailable-image callbacks only *)
+Lemma chan_cbs_shape k x m c : In c (chan_cbs k x m) -> c = CbErr (EChannelEndpoint x) \/ exists r i, c = CbUnavailImg r i 1.
+Proof. unfold chan_cbs. intros H. apply in_flat_map in H. destruct H as ([r e] & _ & Hx). cbn [fst snd] in Hx.
+  destruct (chan_hit k x e) as [o|]; [|destruct Hx]. destruct Hx as [<-|Hx]; [left; reflexivity|]. right.
+  destruct k; try destruct Hx. unfold close_sub_obj in Hx. destruct (o_closed o); cbn in Hx; [tauto|].
+  apply in_map_iff in Hx. destruct Hx as (i & <- & _). eauto. Qed.
+
+Lemma chan_cbs_pub_shape k x m c : k <> KSub -> In c (chan_cbs k x m) -> c = CbErr (EChannelEndpoint x).
+Proof. unfold chan_cbs. intros Hk H. apply in_flat_map in H. destruct H as ([r e] & _ & Hx). cbn [fst snd] in Hx.
+  destruct (chan_hit k x e) as [o|]; [|destruct Hx]. destruct k; try congruence; destruct Hx as [<-|[]]; reflexivity. Qed.
+
+Lemma on_chan_error_cbs_shape x s c : In c (snd (fst (on_chan_error x s))) -> c = CbErr (EChannelEndpoint x) \/ exists r i, c = CbUnavailImg r i 1.
+Proof. unfold on_chan_error. cbn [fst snd]. intros H. apply in_app_or in H. destruct H as [H|H]; [eapply chan_cbs_shape; eauto|].
+  apply in_app_or in H. destruct H as [H|H]; eapply chan_cbs_shape; eauto. Qed.
+
+Lemma on_chan_error_no_close x s : n_close (snd (fst (on_chan_error x s))) = 0%nat.
+Proof. unfold n_close. rewrite filter_none; [reflexivity|]. intros c Hc. apply on_chan_error_cbs_shape in Hc.
+  destruct Hc as [->|(r & i & ->)]; reflexivity. Qed.
+
+Lemma on_chan_error_closed x s : closed (fst (fst (on_chan_error x s))) = closed s.
+Proof. reflexivity. Qed.
+
 Lemma on_event_close_count ev s : inv s -> n_close (snd (fst (on_event ev s))) = delta s (fst (fst (on_event ev s))).
 Proof. intros I. destruct ev; cbn [on_event];
   try (repeat dmatch; cbn [fst snd]; rewrite delta_same by (rewrite ?setm_closed; reflexivity); reflexivity).
   - cbn [fst snd]. rewrite delta_same; [reflexivity|]. unfold on_error. repeat dmatch; rewrite ?setm_closed; reflexivity.
   - destruct ((cid =? client_id s) && negb (closed s)); [|cbn; rewrite delta_same; reflexivity].
-    destruct (close_all s) as [[s1 cbs] hang] eqn:E. cbn [fst snd]. rewrite n_close_app. cbn. rewrite (close_all_delta' _ _ _ _ I E). lia. Qed.
+    destruct (close_all s) as [[s1 cbs] hang] eqn:E. cbn [fst snd]. rewrite n_close_app. cbn. rewrite (close_all_delta' _ _ _ _ I E). lia.
+  - rewrite on_chan_error_no_close, delta_same; [reflexivity|apply on_chan_error_closed]. Qed.
 
 Lemma hc_service_close_count c t s : inv s -> n_close (snd (fst (hc_service c t s))) = delta s (fst (fst (hc_service c t s))).
 Proof. intros I. unfold hc_service. dmatch; [|cbn; rewrite delta_same; reflexivity].
@@ -221,7 +246,8 @@ Proof. intros I. destruct o; cbn [step].
       pose proof (heartbeat_check_close_count c s1 I1) as H. pose proof (heartbeat_check_no_hang c s1) as Hh.
       pose proof (heartbeat_check_stable c s1) as [_ M2].
       destruct (heartbeat_check c s1) as [[[s2 cbs2] hang2] r]. cbn [fst snd] in *. subst.
-      cbn [fst snd]. rewrite n_close_app, H1, H. apply delta_trans; auto. Qed.
+      cbn [fst snd]. rewrite n_close_app, H1, H. apply delta_trans; auto.
+  - unfold do_close_handle. repeat dmatch; cbn [fst snd]; rewrite delta_same; reflexivity. Qed.
 
 Definition all_cbs (xs : list out) : list cb := flat_map (fun x : out => snd (fst x)) xs.
 
